@@ -57,7 +57,7 @@ def meta_scenarios():
                                                        STYLES, (True, False), [(0, 0), (1, 1), (2, 0), (3, 2)]):
         steps = [[{"op": "load", "e": 1, "script": "P", "ow": True}],
                  [{"op": "register", "e": 1, "name": "nat", "arity": -1 if style == "variadic" else 1, "style": style, "fid": "nat", "rows": rows1,
-                   "raise": {"call": rp[0], "row": rp[1]}, "yields": yields}],
+                   "raise": {"call": rp[0], "row": rp[1], "exc": ["custom", "TypeError", "ValueError", "KeyError", "RuntimeError"][(rp[0] + rp[1] + len(style) + int(yields)) % 5]}, "yields": yields}],
                  [{"op": "register", "e": 1, "name": "nat2", "arity": -1 if style == "variadic" else 2, "style": style, "fid": "nat2", "rows": rows2,
                    "raise": {"call": 0, "row": 0}, "yields": not yields}],
                  [{"op": "assert", "e": 1, "term": C("nat", I(0)), "atEnd": True, "r": 0}],
